@@ -221,15 +221,20 @@ def _check(formulas, timeout_s):
         s.add(f)
     t0 = time.time()
     # z3's own timeout is not always honoured inside nlsat: hard interrupt as a backstop
-    tm = threading.Timer(timeout_s + 3, lambda: s.ctx.interrupt())
+    # NB the timer must not hold a reference to the solver: dropping the last reference from the
+    # timer thread would run Z3_solver_dec_ref concurrently with the main thread (segfault).
+    tm = threading.Timer(timeout_s + 3, z3.main_ctx().interrupt)
     tm.daemon = True
-    tm.start()
+    if not os.environ.get("KERNVC_NO_WATCHDOG"):
+        tm.start()
     try:
         r = s.check()
     except z3.Z3Exception:
         r = z3.unknown
     finally:
         tm.cancel()
+        if tm.is_alive():
+            tm.join(1.0)
     return s, str(r), time.time() - t0
 
 
